@@ -8,17 +8,38 @@ def codes(s):
     return [ord(c) for c in s]
 
 
+def crystal_labels():
+    """the '#Sym' comment that ends every row of the crystal_structures list in the source (the row's own label)"""
+    src = open(rawtables.data_file("crystal_structure.py")).read()
+    body = src[src.index("crystal_structures = ["):]
+    body = body[:body.index("\n]") if "\n]" in body else len(body)]
+    out = []
+    for line in body.split("\n")[1:]:
+        line = line.strip()
+        if not line or line.startswith("#"):
+            continue
+        out.append(line.rsplit("#", 1)[1].strip() if "#" in line else "")
+    return out
+
+
 def table_events():
     evs = []
     for i, line in enumerate(rawtables.const("covalent_radius", "Cordero").split("\n")):
         f = line.split()
         alt = f[0] == "-"
-        evs.append({"ev": "cordero", "id": "cordero:%d" % i, "alt": alt, "z": 0 if alt else int(f[0]),
+        evs.append({"ev": "cordero", "id": "cordero:%d" % i, "alt": alt, "z": 0 if alt else int(f[0]), "label": codes(f[1]),
                     "r": dec.to_dec(f[2]), "u": dec.to_dec(f[3]) if len(f) > 3 else dec.to_dec(0)})
+    labels = crystal_labels()
+    eb_ = rawtables.element_base()
+    symz_ = dict((v[1], z) for z, v in eb_.items())
+    # rows whose own '#Sym' comment names another element; three in a row = the table is shifted against its labels
+    wrong = [z for z, lab in enumerate(labels) if z > 0 and lab in symz_ and symz_[lab] != z]
+    shifted = set(z for z in wrong if z + 1 in wrong and z + 2 in wrong)
+    shifted |= set(z + 1 for z in shifted) | set(z + 2 for z in shifted)
     for z, v in enumerate(rawtables.const("crystal_structure", "crystal_structures")):
         val = {"k": "none"} if v is None else {"k": "dict", "symmetry": v.get("symmetry"),
                                                "nums": dict((k, dec.to_dec(x)) for k, x in v.items() if k != "symmetry")}
-        evs.append({"ev": "cryst", "id": "cryst:%d" % z, "z": z, "value": val})
+        evs.append({"ev": "cryst", "id": "cryst:%d" % z, "z": z, "value": val, "shifted": z in shifted})
     for i, row in enumerate(rawtables.const("xsf", "spectral_lines_data").split("\n")):
         s, ka, kb = row.split()
         evs.append({"ev": "emis", "id": "emis:%d" % i, "sym": codes(s), "ka": dec.to_dec(ka), "kb": dec.to_dec(kb)})
